@@ -277,41 +277,60 @@ pub fn check(prop: &str, tier: &str) -> i32 {
         extra: BTreeMap::new(),
     };
     let mut exhaustive = true;
+    let mut failed: Vec<(Job, String)> = Vec::new();
     for (job, end) in ended {
         match end {
             JobEnd::Done => merge_one(&mut m, &job),
-            JobEnd::Died(_) | JobEnd::Hung => {
-                exhaustive = false;
-                let how = match &end {
-                    JobEnd::Died(s) => format!("worker died ({})", s),
-                    _ => format!("no progress for {} s (hang)", HANG_SECS),
-                };
-                // localise: re-run the shard in trace mode; the trace file then holds the fatal case
-                let trace = format!("{}.trace", job.outfile);
-                let _ = fs::remove_file(&trace);
-                let j2 = Job {
-                    profile: job.profile.clone(),
-                    shard: job.shard,
-                    nshards: job.nshards,
-                    outfile: format!("{}.rerun", job.outfile),
-                    trace: Some(trace.clone()),
-                };
-                let again = run_jobs(prop, tier, vec![j2], 1);
-                let reproduced = !matches!(again[0].1, JobEnd::Done);
-                let case: Option<Value> = fs::read_to_string(&trace).ok().and_then(|s| serde_json::from_str(&s).ok());
-                match (reproduced, case) {
-                    (true, Some(case)) => {
-                        m.violation_count += 1;
-                        m.violations.push(json!({
-                            "sub": "process-fatal", "profile": job.profile, "case": case,
-                            "expected": "Ok(_) or Err(_) (the call returns)",
-                            "actual": format!("{} while executing this case", how), "site": Value::Null
-                        }));
+            JobEnd::Died(s) => failed.push((job, format!("worker died ({})", s))),
+            JobEnd::Hung => failed.push((job, format!("no progress for {} s (hang)", HANG_SECS))),
+        }
+    }
+    if !failed.is_empty() {
+        exhaustive = false;
+        // localise: re-run (a few of) the failed shards in trace mode, in parallel; the trace file
+        // then holds the case that was executing when the worker died or stalled
+        const LOCALISE: usize = 6;
+        let mut reruns = Vec::new();
+        for (job, _) in failed.iter().take(LOCALISE) {
+            let trace = format!("{}.trace", job.outfile);
+            let _ = fs::remove_file(&trace);
+            reruns.push(Job {
+                profile: job.profile.clone(),
+                shard: job.shard,
+                nshards: job.nshards,
+                outfile: format!("{}.rerun", job.outfile),
+                trace: Some(trace),
+            });
+        }
+        let again = run_jobs(prop, tier, reruns, par);
+        for (job, how) in failed.iter() {
+            let rerun = again.iter().find(|(j, _)| j.profile == job.profile && j.shard == job.shard);
+            match rerun {
+                Some((j2, end2)) => {
+                    let reproduced = !matches!(end2, JobEnd::Done);
+                    let case: Option<Value> = j2.trace.as_ref().and_then(|t| fs::read_to_string(t).ok()).and_then(|s| serde_json::from_str(&s).ok());
+                    match (reproduced, case) {
+                        (true, Some(case)) => {
+                            m.violation_count += 1;
+                            m.violations.push(json!({
+                                "sub": "process-fatal", "profile": job.profile, "case": case,
+                                "expected": "Ok(_) or Err(_) (the call returns)",
+                                "actual": format!("{} while executing this case", how), "site": Value::Null
+                            }));
+                        }
+                        _ => m.machinery_errors.push(format!(
+                            "{} in profile {} shard {} and the failure could not be localised (reproduced={})",
+                            how, job.profile, job.shard, reproduced
+                        )),
                     }
-                    _ => m.machinery_errors.push(format!(
-                        "{} in profile {} shard {} and the failure could not be localised (reproduced={})",
-                        how, job.profile, job.shard, reproduced
-                    )),
+                }
+                None => {
+                    m.violation_count += 1;
+                    m.violations.push(json!({
+                        "sub": "process-fatal", "profile": job.profile,
+                        "case": {"unlocalised_shard": format!("{}-{}", job.profile, job.shard), "note": "more shards failed than are localised per run"},
+                        "expected": "Ok(_) or Err(_) (the call returns)", "actual": how, "site": Value::Null
+                    }));
                 }
             }
         }
